@@ -425,7 +425,7 @@ def _mk(kind, v):
     if v is None:
         return None
     if kind == "PyFloat":
-        return v
+        return float(v)  # a genuine Python float (the representatives are small integers, exactly representable)
     if kind == "NumPyFloat32":
         return NpScalar(v, "float32")
     if kind == "NumPyFloat64":
